@@ -452,7 +452,9 @@ impl Env {
         Env { scratch, app, _provider: provider, main_rt: new_rt(), uses: 0, key: Env::key_of(c) }
     }
     fn key_of(c: &Case) -> String {
-        format!("{:?}/{:?}", c.kind, c.load)
+        // cases with a foreign producer get a fresh store each (uses limit below): the main thread is then short, so a
+        // frame of another thread (seq 0, 1) that leaks through the handler is not hidden by the `seq > last` filter
+        format!("{:?}/{:?}/{}", c.kind, c.load, c.others > 0)
     }
     fn data(&self) -> PathBuf {
         self.scratch.path().join("data")
@@ -460,7 +462,7 @@ impl Env {
 }
 fn env_for<'a>(slot: &'a mut Option<Env>, c: &Case) -> &'a mut Env {
     let stale = match slot {
-        Some(e) => e.key != Env::key_of(c) || e.uses >= ENV_MAX_USES,
+        Some(e) => e.key != Env::key_of(c) || e.uses >= ENV_MAX_USES || c.others > 0,
         None => true,
     };
     if stale {
